@@ -227,7 +227,7 @@ CREDS = st.one_of(
 def auth_value(draw: Any, creds: str) -> Tuple[bytes, str]:
     token = token_of(creds)
     kind = draw(st.sampled_from(['right', 'right', 'right', 'truncated', 'extended', 'caseflip', 'urlsafe', 'padding', 'inner_ws',
-                                 'other_creds', 'other_scheme', 'params', 'tab_sep', 'newline_creds', 'prefix', 'empty_token']))
+                                 'other_creds', 'other_scheme', 'params', 'tab_sep', 'newline_creds', 'prefix', 'empty_token', 'binary_token']))
     scheme = draw(st.sampled_from([b'Basic', b'basic', b'BASIC', b'bAsIc']))
     sep = draw(st.sampled_from([b' ', b' ', b'  ', b'   ']))
     t = token
@@ -260,6 +260,9 @@ def auth_value(draw: Any, creds: str) -> Tuple[bytes, str]:
         t = token[:max(1, len(token) // 2)]
     elif kind == 'empty_token':
         t = b''
+    elif kind == 'binary_token':
+        # well-formed base64 of credentials that are not UTF-8 (latin-1 user name, arbitrary octets)
+        t = base64.b64encode(draw(st.sampled_from(['j\u00fcrgen:pass'.encode('latin-1'), b'\xff\xfe:\x80', b'user:pa\xdf'])))
     return scheme + sep + t, kind
 
 
